@@ -25,7 +25,7 @@ def run(chk):
     it = chk.load()
     it = B.prepare(chk)
     S.check_layout(it.adts)
-    chk.bounds = {'requests per pool': '1-2 (quick), 1-3 (thorough); every request has all fields symbolic',
+    chk.bounds = {'requests per pool': 'swaps and withdrawals: 1-2 (quick), 1-3 (thorough); deposits: 1; every request has all fields symbolic',
                   'pool': 'arbitrary pool key (two different denominations) and pool state with reserves and liquidity in [1, 2^127]',
                   'amounts': 'outputs <= 2^120 (Transaction::is_well_formed)',
                   'arithmetic': 'exact translation to non-linear integer arithmetic (mirsym/intify.py)'}
@@ -41,6 +41,9 @@ def run(chk):
             swap_settlement(chk, it, n)
         for n in ((1, 2) if chk.tier == 'quick' else (1, 2, 3)):
             withdraw_settlement(chk, it, n)
+        # deposits: one request per pool through the whole settlement function (wiring + per-request formula); batches of
+        # several deposits only differ in the totals, which are the same saturating folds as in the swap / withdrawal kernels
+        deposit_settlement(chk, it, 1)
     finally:
         BM.CONFIG['symbolic_ops'] = False
         it.arith_feasibility = False
@@ -468,6 +471,165 @@ def withdraw_settlement(chk, it, n, mode='func'):
     it.base_read_hooks.pop('pools', None)
 
 
+def sat_mul(a, b):
+    return z3.If(z3.BVMulNoOverflow(a, b, False), a * b, bv(MAXU, 128))
+
+
+def deposit_settlement(chk, it, n, mode='func', backing=False):
+    """mode 'func': C15 claims; backing=True adds the C16 claim that the tokens handed out do not exceed the liquidity minted"""
+    st, state, sterms, pk, txs, tts, hs = _settlement_setup(chk, it, n, 2)
+    for tx in txs:
+        st.pc.append(val_eq(tx.fields[2].fields[0].fields[2], pk.fields[0]))  # selector: outputs are (left, right) of the pool
+        st.pc.append(val_eq(tx.fields[2].fields[1].fields[2], pk.fields[1]))
+    pools0 = state.fields[9].fields[0].data
+    before = pool_entry(it, st, pools0, pk)
+    exists = before.data.present
+    L, R, PA, LQ = before.data.value.fields
+    ls = [tt['out0_value'] for tt in tts]
+    rs = [tt['out1_value'] for tt in tts]
+    tl = z3.Sum([I(v) for v in ls]) if n > 1 else I(ls[0])
+    tr = z3.Sum([I(v) for v in rs]) if n > 1 else I(rs[0])
+    netd, h = sterms['network'], sterms['height']
+    old_rules = z3.And(z3.Or(netd == 0xff, netd == 0x01), z3.ULT(h, 978392))
+    scell = st.alloc(state)
+    vcell = st.alloc(Agg('Vec', txs))
+    fn = it.by_last['process_deposits_for_single_pool'][0]
+    added = install_pool_contracts(it)
+    try:
+        outs = it.exec_fn(st, fn, [Ptr(st.alloc(pk)), Ptr(scell), Ptr(vcell)])
+    finally:
+        it.overrides = [o for o in it.overrides if o not in added]
+    inputs = {'pool_exists': z3.If(exists, bv(1, 8), bv(0, 8)), 'pool_lefts': L, 'pool_rights': R, 'pool_liqs': LQ, 'height': h, 'network': netd}
+    for i in range(n):
+        inputs['dep%d_lefts' % i] = ls[i]
+        inputs['dep%d_rights' % i] = rs[i]
+    k = 0
+    cov = []
+    for idx, (s, o) in enumerate(outs):
+        name = 'process_deposits_for_single_pool/%dreq/%d' % (n, idx)
+        rp = lambda mo: replay_deposits(chk, mo, inputs, n)
+        if isinstance(o, Panic):
+            if mode == 'panic':
+                chk.obligation('PANIC/' + name, list(s.pc), z3.BoolVal(False), inputs, replay=rp, kind='PANIC', describe=str(o),
+                               bound='%d deposit(s) into an existing pool (reserves, liquidity in [1, 2^127]) or a new one' % n, arith='int')
+            continue
+        k += 1
+        if mode == 'panic':
+            continue
+        calls = [(z3.BoolVal(True), e[1]) for e in s.events if e[0] == 'deposit'] + \
+                [(e[1], e[2][1]) for e in s.events if e[0] == 'when' and e[2][0] == 'deposit']
+        post_state = s.heap[scell]
+        after = pool_entry(it, s, post_state.fields[9].fields[0].data, pk)
+        for case_name, case_cond, want_new in (('existing-pool', exists, False), ('new-pool', z3.Not(exists), True)):
+          sel = [c_ for g_, c_ in calls if (z3.is_bv_value(simp(c_['LQ'])) and simp(c_['LQ']).as_long() == 0) == want_new]
+          if len(calls) == 1:
+              sel = [calls[0][1]]
+          if len(sel) != 1:
+              raise Inconclusive('expected one PoolState::deposit for the %s case, saw %d' % (case_name, len(sel)))
+          c = sel[0]
+          name = 'process_deposits_for_single_pool/%dreq/%d/%s' % (n, idx, case_name)
+          pcs = list(s.pc) + [case_cond]
+          minted = c['ret']
+          if True:
+              chk.obligation('FUNC/pool-is-updated-by-one-deposit-of-the-totals/' + name, pcs,
+                             z3.And(after.data.present, I(c['dl']) == tl, I(c['dr']) == tr,
+                                    z3.Implies(exists, z3.And(c['L'] == L, c['R'] == R, c['LQ'] == LQ)), z3.Implies(z3.Not(exists), c['LQ'] == 0)),
+                             inputs, replay=rp, arith='int', bound='one PoolState::deposit(sum of lefts, sum of rights) on the pool or on a new empty pool')
+              from mirsym.bigmodels import isqrt_bv
+              total_mt = sat_mul(isqrt_bv(c['dl']), isqrt_bv(c['dr']))
+              coins1 = post_state.fields[3].fields[0].data
+              liq = liq_denom(s, pk)
+              handed = z3.IntVal(0)
+              for i, tx0 in enumerate(txs):
+                  o0 = tx0.fields[2].fields[0]
+                  my = sat_mul(isqrt_bv(ls[i]), isqrt_bv(rs[i]))
+                  p0, c0 = B.coin_lookup(it, s, coins1, hs[i], bv(0, 8))
+                  p1, c1 = B.coin_lookup(it, s, coins1, hs[i], bv(1, 8))
+                  cd0 = c0.fields[0]
+                  a0 = I(cd0.fields[1].fields[0])
+                  chk.obligation('FUNC/request-%d-receives-liquidity-tokens-of-its-pool/%s' % (i, name), pcs,
+                                 z3.And(p0, val_eq(cd0.fields[2], liq), val_eq(cd0.fields[0], o0.fields[0]), val_eq(cd0.fields[3], o0.fields[3]),
+                                        c0.fields[1].fields[0] == h), inputs, replay=rp, arith='int')
+                  chk.obligation('FUNC/request-%d-gets-its-pro-rata-share-rounded-down/%s' % (i, name), pcs + [total_mt != 0],
+                                 z3.And(a0 * I(total_mt) <= I(minted) * I(my), z3.Implies(a0 < MAXU, (a0 + 1) * I(total_mt) > I(minted) * I(my))),
+                                 inputs, replay=rp, arith='int',
+                                 bound='floor(minted liquidity * isqrt(l)*isqrt(r) / (isqrt(sum l)*isqrt(sum r)))')
+                  chk.obligation('FUNC/request-%d-second-output-is-consumed/%s' % (i, name), pcs + [z3.Not(old_rules)], z3.Not(p1), inputs,
+                                 replay=rp, arith='int', bound='outside the grandfathered heights (mainnet / testnet below 978392)')
+                  handed = handed + a0
+              if backing:
+                  chk.obligation('FUNC/tokens-handed-out-do-not-exceed-the-liquidity-minted/' + name, pcs, handed <= I(minted),
+                                 dict(inputs, shares_exceed_total=z3.If(z3.Sum([I(sat_mul(isqrt_bv(ls[i]), isqrt_bv(rs[i]))) for i in range(n)]) > I(total_mt), bv(1, 8), bv(0, 8))),
+                                 replay=rp, arith='int', bound='sum of the rounded-down shares <= what PoolState::deposit returned')
+              cov.append(pcs + [I(minted) > 1000])
+    if not k:
+        raise Inconclusive('process_deposits_for_single_pool has no returning path')
+    if mode == 'func':
+        _cover_any_int(chk, 'deposit that mints liquidity/%dreq' % n, cov)
+    it.base_read_hooks.pop('pools', None)
+
+
+def ref_deposits(exists, L, R, Q, deps):
+    import math
+    tl, tr = sum(l for l, r in deps), sum(r for l, r in deps)
+    if not exists or Q == 0:
+        minted, L2, R2, Q2 = tl, tl, tr, tl
+    else:
+        d = math.isqrt((Q * Q * tl * tr) // (L * R))
+        minted, L2, R2, Q2 = d, L + tl, R + tr, min(Q + d, MAXU)
+    total_mt = math.isqrt(tl) * math.isqrt(tr)
+    outs = [((minted * (math.isqrt(l) * math.isqrt(r))) // total_mt) if total_mt else 0 for l, r in deps]
+    return outs, L2, R2, Q2, minted
+
+
+def replay_deposits(chk, model, inputs, n):
+    ev = lambda t: harness.model_int(model, t)
+    exists = bool(ev(inputs['pool_exists']))
+    L, R, Q = max(ev(inputs['pool_lefts']), 1), max(ev(inputs['pool_rights']), 1), max(ev(inputs['pool_liqs']), 1)
+    deps = [(ev(inputs['dep%d_lefts' % i]), ev(inputs['dep%d_rights' % i])) for i in range(n)]
+    return run_deposit_scenario(exists, L, R, Q, deps)
+
+
+def run_deposit_scenario(exists, L, R, Q, deps, kind=0x52, backing=True):
+    raw = lambda k: {'txhash': {'hex': ('%02x' % k) * 32}, 'index': 0}
+    coins, txs, probes = [], [], []
+    for i, (l, r) in enumerate(deps):
+        coins.append({'id': raw(0x21 + i), 'covhash': {'covhash_of': 'true'}, 'value': str(l + 10), 'denom': 'MEL', 'adata': '', 'height': 0})
+        coins.append({'id': raw(0x31 + i), 'covhash': {'covhash_of': 'true'}, 'value': str(r), 'denom': 'SYM', 'adata': '', 'height': 0})
+        txs.append({'name': 'abc'[i], 'kind': kind, 'inputs': [raw(0x21 + i), raw(0x31 + i)], 'fee': '10', 'covenants': ['true'], 'data': '73',
+                    'outputs': [{'covhash': {'covhash_of': 'true'}, 'value': str(l), 'denom': 'MEL', 'adata': '%02x' % i},
+                                {'covhash': {'covhash_of': 'true'}, 'value': str(r), 'denom': 'SYM', 'adata': ''}]})
+        probes.append({'txhash': {'txhash_of': 'abc'[i]}, 'index': 0})
+        probes.append({'txhash': {'txhash_of': 'abc'[i]}, 'index': 1})
+    sc = {'kind': 'batch', 'network': 2, 'height': 5, 'fee_pool': '0', 'tips': '0', 'fee_multiplier': '0', 'dosc_speed': '1000000',
+          'coins': coins, 'txs': txs, 'probes': probes,
+          'pools': [{'left': 'MEL', 'right': 'SYM', 'lefts': str(L), 'rights': str(R), 'liqs': str(Q)}] if exists else [],
+          'melmint_only': 'deposits'}
+    out = harness.run_replay([sc], 'dev')[0]
+    if 'error' in out or 'unrealizable' in out:
+        raise Inconclusive('replay: %s' % out)
+    run = out['runs'][0]
+    if run.get('result') != 'Ok':
+        raise Inconclusive('replay: the deposit batch itself was rejected: %s' % run.get('result'))
+    mm = run.get('melmint', {})
+    if mm.get('panicked'):
+        return True, sc, {'why': 'panic in process_deposits: ' + mm.get('msg', '')[-200:]}
+    outs, L2, R2, Q2, minted = ref_deposits(exists, L, R, Q, deps)
+    got = mm.get('probes', [])
+    why = ''
+    for i, a in enumerate(outs):
+        g0, g1 = got[2 * i], got[2 * i + 1]
+        if g0 is None or g0['denom'] != 'LIQ:MEL/SYM' or int(g0['value']) != a or g1 is not None:
+            why = 'request %d: coins %s / %s, reference %d liquidity tokens and no second coin' % (i, g0, g1, a)
+            break
+    pool = (mm.get('pools') or [{}])[0]
+    if not why and (int(pool.get('lefts', -1)), int(pool.get('rights', -1)), int(pool.get('liqs', -1))) != (L2, R2, Q2):
+        why = 'pool %s, reference %d/%d/%d' % (pool, L2, R2, Q2)
+    if not why and backing and sum(outs) > minted:
+        why = 'tokens handed out %d > liquidity minted %d (pool records %s)' % (sum(outs), minted, pool.get('liqs'))
+    return bool(why), sc, {'why': why or 'consistent with the reference', 'native': mm}
+
+
 def _cover_any_int(chk, name, alternatives):
     why = []
     for c in alternatives:
@@ -478,6 +640,37 @@ def _cover_any_int(chk, name, alternatives):
         why.append('%s: %s' % (res, str(payload)[:100]))
     chk.covers.append({'id': name, 'reachable': False})
     raise Inconclusive('vacuity guard %s is not reachable (%s)' % (name, why[:3]))
+
+
+def replay_withdraw_selector(kind, nout):
+    """a transaction burning MEL/SYM liquidity tokens in its first output, of the model's kind and output count: settled?"""
+    raw = lambda k: {'txhash': {'hex': ('%02x' % k) * 32}, 'index': 0}
+    if kind not in (0x00, 0x51, 0x52, 0x53):
+        kind = 0x00
+    outs = [{'covhash': {'covhash_of': 'true'}, 'value': '1000', 'denom': 'LIQ:MEL/SYM', 'adata': ''}]
+    if nout >= 2:
+        outs.append({'covhash': {'covhash_of': 'true'}, 'value': '7', 'denom': 'MEL', 'adata': '01'})
+    sc = {'kind': 'batch', 'network': 2, 'height': 5, 'fee_pool': '0', 'tips': '0', 'fee_multiplier': '0', 'dosc_speed': '1000000',
+          'coins': [{'id': raw(0x21), 'covhash': {'covhash_of': 'true'}, 'value': '1000', 'denom': 'LIQ:MEL/SYM', 'adata': '', 'height': 0},
+                    {'id': raw(0x31), 'covhash': {'covhash_of': 'true'}, 'value': '17', 'denom': 'MEL', 'adata': '', 'height': 0}],
+          'txs': [{'name': 'a', 'kind': kind, 'inputs': [raw(0x21), raw(0x31)], 'fee': '17' if nout < 2 else '10', 'covenants': ['true'],
+                   'data': '73', 'outputs': outs}],
+          'probes': [{'txhash': {'txhash_of': 'a'}, 'index': 0}, {'txhash': {'txhash_of': 'a'}, 'index': 1}],
+          'pools': [{'left': 'MEL', 'right': 'SYM', 'lefts': str(10 ** 9), 'rights': str(10 ** 9), 'liqs': str(10 ** 9)}],
+          'melmint_only': 'withdrawals'}
+    out = harness.run_replay([sc], 'dev')[0]
+    if 'error' in out or 'unrealizable' in out:
+        raise Inconclusive('replay: %s' % out)
+    run = out['runs'][0]
+    if run.get('result') != 'Ok':
+        raise Inconclusive('replay: the batch itself was rejected: %s' % run.get('result'))
+    mm = run.get('melmint', {})
+    if mm.get('panicked'):
+        return True, sc, {'why': 'panic: ' + mm.get('msg', '')[-160:]}
+    p0 = (mm.get('probes') or [None])[0]
+    settled = p0 is not None and p0.get('denom') == 'MEL'
+    should = kind == 0x53 and nout == 1
+    return settled and not should, sc, {'kind': hex(kind), 'outputs': nout, 'settled': settled, 'should_be_settled': should, 'probes': mm.get('probes')}
 
 
 def ref_withdrawals(L, R, Q, burns):
@@ -702,6 +895,8 @@ def replay_selector(chk, model, inputs, which):
     ev = lambda t: harness.model_int(model, t)
     kind = ev(inputs['kind'])
     want_kind = {'swap': 0x51, 'deposit': 0x52, 'withdrawal': 0x53}[which]
+    if which == 'withdrawal':
+        return replay_withdraw_selector(kind, ev(inputs['n_outputs']))
     if which != 'swap':
         raise Inconclusive('no native scenario for the %s selector yet' % which)
     kinds = [kind] if kind in (0x00, 0x51, 0x52, 0x53) else []
